@@ -14,6 +14,10 @@ from hypergraph.nodes.interrupt import InterruptNode
 from . import ir as IR
 
 
+class InterfaceMismatch(Exception):
+    """The IR's idea of a nested graph's interface differs from the real GraphNode's (harness or code defect)."""
+
+
 class Boom(Exception):
     """The exception raised by a scripted failing body."""
 
@@ -193,6 +197,8 @@ def build_node(rt, nd, prefix):
         rout = {i: o for i, o in nd["outmap"] if o != i}
         if rout:
             gn = gn.with_outputs(rout)
+        if set(gn.inputs) != set(nd["inputs"]) or set(gn.outputs) != set(nd["outputs"]):
+            raise InterfaceMismatch(f"graph node {path}: IR interface {nd['inputs']}->{nd['outputs']} but the real node has {gn.inputs}->{gn.outputs}")
         if nd["map_over"]:
             clone = nd["clone"]
             clone = False if clone == [IR.NONE] else (True if clone == ["~all"] else list(clone))
